@@ -532,7 +532,9 @@ func replayAbort(cfg abortCfg, sc schedCase, n int) replayResult {
 			s.markFinished("A")
 		}()
 	}
+	evalStarted := false
 	startEval := func() {
+		evalStarted = true
 		go func() {
 			s.register("M")
 			_, _, evalErr = eval.Run(ctx, []byte(cfg.source(false)))
@@ -770,8 +772,9 @@ func replayAbort(cfg abortCfg, sc schedCase, n int) replayResult {
 				d = later(cbSrc)
 				e = laterOnNew(cbSrc)
 			} else {
-				// the session's variables are still values (the cancelled fragment declared f)
-				if x := later("return [f == undefined || isFunction(f), 1]"); x != "[true, 1] <nil>" {
+				// the session's variables are still values (the cancelled fragment declared f - unless the schedule
+				// ends before Eval.Run was called at all)
+				if x := later("return [f == undefined || isFunction(f), 1]"); evalStarted && x != "[true, 1] <nil>" {
 					d = "session variable f: " + x
 				}
 			}
@@ -820,6 +823,98 @@ func init() {
 		}
 		b, _ := json.Marshal(sh)
 		fmt.Println(string(b))
+		return nil
+	}
+	// abortreuse <results.ndjson>: an Invoker the host keeps for several calls.  The callback invokes the function k
+	// times through ONE Invoker (pooled: acquired once; unpooled: the child VM the first Invoke made); the first
+	// k-1 calls return, the k-th never does; Abort arrives once the k-th call is running.  The child VM is the same
+	// object in every call: it must be reachable by Abort in every one of them (UgoAbort: a running child is in the
+	// root's pool, AbortNotLost).
+	subs["abortreuse"] = func(args []string) error {
+		out, err := newOut(args[0])
+		if err != nil {
+			return err
+		}
+		defer out.close()
+		n := 0
+		for _, pooled := range []bool{true, false} {
+			for k := 1; k <= 3; k++ {
+				for _, catch := range []bool{false, true} {
+					n++
+					src := fmt.Sprintf("global (cb, mark)\nn := 0\nf := func() { n++; mark(n); if n < %d { return n }; for {} }\n", k)
+					if catch {
+						src += "try { cb(f) } catch e { return 1 } finally { y := 2 }\nreturn 7\n"
+					} else {
+						src += "cb(f)\nreturn 7\n"
+					}
+					bc, err := ugo.Compile([]byte(src), ugo.CompilerOptions{})
+					if err != nil {
+						return err
+					}
+					reached := make(chan struct{}, 1)
+					mark := &ugo.Function{Name: "mark", Value: func(a ...ugo.Object) (ugo.Object, error) {
+						if len(a) == 1 && a[0] == ugo.Int(k) {
+							reached <- struct{}{}
+						}
+						return ugo.Undefined, nil
+					}}
+					cb := &ugo.Function{Name: "cb", ValueEx: func(c ugo.Call) (ugo.Object, error) {
+						inv := ugo.NewInvoker(c.VM(), c.Get(0))
+						if pooled {
+							inv.Acquire()
+							defer inv.Release()
+						}
+						var ret ugo.Object = ugo.Undefined
+						for i := 0; i < 3; i++ {
+							r, err := inv.Invoke()
+							if err != nil {
+								return nil, err
+							}
+							ret = r
+						}
+						return ret, nil
+					}}
+					vm := ugo.NewVM(bc)
+					done := make(chan error, 1)
+					go func() {
+						defer func() {
+							if p := recover(); p != nil {
+								done <- fmt.Errorf("PANIC: %v", p)
+							}
+						}()
+						_, err := vm.Run(ugo.Map{"cb": cb, "mark": mark})
+						done <- err
+					}()
+					what := ""
+					select {
+					case <-reached:
+						vm.Abort()
+						select {
+						case err := <-done:
+							if classify(err) != "aborted" {
+								what = fmt.Sprintf("Run returned %v after Abort, not the aborted error", err)
+							}
+						case <-time.After(3 * time.Second):
+							what = "Abort during call " + fmt.Sprint(k) + " of one Invoker was lost: Run did not return within 3 s"
+							for i := 0; i < 2000; i++ { // try to get the goroutine back
+								vm.Abort()
+								time.Sleep(time.Millisecond)
+							}
+						}
+					case err := <-done:
+						what = fmt.Sprintf("Run ended before call %d began: %v", k, err)
+					case <-time.After(5 * time.Second):
+						what = fmt.Sprintf("call %d never began", k)
+					}
+					r := N{"pooled": pooled, "k": k, "catch": catch, "ok": what == "", "src": src}
+					if what != "" {
+						r["what"] = what
+					}
+					out.put(r)
+				}
+			}
+		}
+		out.put(N{"done": true, "n": n})
 		return nil
 	}
 	// abortreplay <cfg> <sched.ndjson> <results.ndjson> [maxcases]
